@@ -9,15 +9,19 @@ RULE = ("correspondence: the general model-vs-library run restricted to worlds w
         "from the ridge), across and along slabs; checked: envelope [top, bottom] (rel. 1e-9), monotone in depth, antitone in age, boundary values attained; for mass-conserving and plate-model "
         "slab temperatures: surface temperature <= T <= max(ambient, adiabat(depth)). non-trivial = a probe inside the model's range.")
 TRUSTED_BASE = ["erfc laws (erfc 0 = 1, erfc >= 0, antitone on [0,inf)) and sin(i*pi) = 0 are hypotheses of the theorems, sampled on libm by the oracle only",
-                "mass conserving and slab plate-model temperatures are NOT inside the Lean model: for them this check is the implementation-level oracle only"]
+                "mass conserving and slab plate-model temperatures are inside the Lean model since the second round (Model/Models/SlabTemp.lean, part of the correspondence); their envelope is proved only where stated in Properties/C20Slab.lean (outside-identity, reference-model bounds), the rest is the implementation-level oracle"]
 ASSUMPTIONS = ["top <= bottom temperature; ages > 0; documented parameter ranges",
                "interior bounds of the truncated plate series are not theorems (the 100-term sum overshoots for very young plates: known finding)"]
 
 
-def series_young(gl, age_s, D):
-    """true when the first neglected term of the 100-term plate series is not yet damped below double precision:
-    X = kappa*age*(100*pi/D)^2 < 40 (the neglected tail is about (bottom-top)*e^-X/(30*pi*X/100))"""
-    return gl.kappa * age_s * (100 * math.pi / D) ** 2 < 40
+def series_young(gl, age_s, D, v=None):
+    """true when the 100th term of the plate series is not yet damped below double precision.  `plate model constant age` damps term i by
+    exp(-kappa*age*(i*pi/D)^2); the ridge-based `plate model` by exp((Pe - sqrt(Pe^2 + i^2 pi^2)) * v*age/D) with Pe = v*D/(2*kappa), which for i*pi >> Pe
+    falls only linearly in i (slow plates: v = 5 mm/yr, D = 150 km, 1.2 Myr: the 100th term is still 4e-5 K).  Young = damping exponent of term 100 below 40."""
+    if v is None:
+        return gl.kappa * age_s * (100 * math.pi / D) ** 2 < 40
+    pe = v * D / (2 * gl.kappa)
+    return (math.sqrt(pe * pe + (100 * math.pi) ** 2) - pe) * v * age_s / D < 40
 
 
 def ocean_case(rng):
@@ -88,7 +92,8 @@ def oracle(seed, tier):
                 bad("library failed %s" % (info,)); continue
             cases += len(ds); nontriv += len(ds)
             age_s = (m["plate age"] * YEAR) if ridge is None else ridge_distance(ridge, pos) / (m["spreading velocity"] / YEAR)
-            young = name != "half space model" and series_young(gl, age_s, D)
+            vms = (m["spreading velocity"] / YEAR) if name == "plate model" else None
+            young = name != "half space model" and series_young(gl, age_s, D, vms)
             probe = "plate-series-truncation-young-age" if young else None
             env, mono = check_profile(vals, top, [botf(d) for d in ds], 2000.0)
             if not env:
@@ -115,7 +120,7 @@ def oracle(seed, tier):
                 ages = [r / (m["spreading velocity"] / YEAR) for r, x in pts]
                 for k in range(len(vals) - 1):
                     if vals[k + 1] > vals[k] + 2e-6:
-                        yg = name != "half space model" and series_young(gl, ages[k], D)
+                        yg = name != "half space model" and series_young(gl, ages[k], D, vms)
                         bad("temperature rises with age at depth %.6g: %.12g at %.5g yr, %.12g at %.5g yr" % (d0, vals[k], ages[k] / YEAR, vals[k + 1], ages[k + 1] / YEAR),
                             "plate-series-truncation-young-age" if yg else None, {"cmd": info[k + 2]})
                         break
